@@ -116,6 +116,7 @@ def plain() -> int:
 '''
 # rule -> (decl lines, bad lines, good lines); «..» marks the offending construct inside the bad lines
 STMT = {
+    "R5unpack": (["a0, b0 = (n // 2, n % 2)"], ["«a0 += 1»", "println(a0 + b0)"], ["println(a0 + b0)"]),
     "R7field": (["let p = P(x=1)"], ["«p.x = 2»"], ["println(p.x)"]),
     "R7index": (["let xs = [1, 2]"], ["«xs[0] = 5»"], ["println(xs[0])"]),
     "R8": ([], ["let v = «plain()?»", "println(v)"], ["let v = fetch()?", "println(v)"]),
@@ -178,6 +179,10 @@ PRE = {
 }
 
 
+PREFN = {"none": "", "mut-same-names": ("def earlier() -> int:\n    mut a0 = 0\n    a0 += 1\n    mut p = P(x=1)\n    p.x = 2\n    mut xs = [1, 2]\n"
+                                         "    xs[0] = 5\n    return a0 + p.x + xs[0]\n\n")}
+
+
 def table_program(row, variant):
     rule, host, kinds = row["rule"], row["host"], row["kinds"]
     if rule in DECL:
@@ -192,7 +197,7 @@ def table_program(row, variant):
         else:
             kw = "model" if host == "method-model" else "class"
             fn = [f"{kw} H:", "    z: int", "", f"    def host(self, {params}) -> Result[int, str]:"] + ["        " + l for l in body]
-        text = PRELUDE + "\n".join(fn) + "\n\ndef main() -> None:\n    println(1)\n"
+        text = PRELUDE + PREFN[row.get("prefn", "none")] + "\n".join(fn) + "\n\ndef main() -> None:\n    println(1)\n"
     # strip the markers, remember the byte range
     b = text.encode("utf-8")
     s, e = b.find("«".encode()), b.find("»".encode())
@@ -259,12 +264,12 @@ def run(ctx):
         reqs += [{"op": "check", "src": src}, {"op": "check", "src": gsrc}]
         meta.append((r["rule"], tags, src, span, gsrc, {"rule": r["rule"], "kinds": r["kinds"]}))
     for r in trows:
-        tags = ["rule:" + r["rule"], "host:" + r["host"], "pre:" + r.get("pre", "none"), "distance:" + str(len(r["kinds"]))] + ["ctx:" + k for k in r["kinds"]] + \
+        tags = ["rule:" + r["rule"], "host:" + r["host"], "pre:" + r.get("pre", "none"), "prefn:" + r.get("prefn", "none"), "distance:" + str(len(r["kinds"]))] + ["ctx:" + k for k in r["kinds"]] + \
                (["ctx-innermost:" + r["kinds"][-1]] if r["kinds"] else ["ctx-innermost:top"])
         src, span = table_program(r, "bad")
         gsrc, _ = table_program(r, "good")
         reqs += [{"op": "check", "src": src}, {"op": "check", "src": gsrc}]
-        meta.append((r["rule"], tags, src, span, gsrc, {"rule": r["rule"], "host": r["host"], "kinds": r["kinds"], "pre": r.get("pre", "none")}))
+        meta.append((r["rule"], tags, src, span, gsrc, {"rule": r["rule"], "host": r["host"], "kinds": r["kinds"], "pre": r.get("pre", "none"), "prefn": r.get("prefn", "none")}))
     with ctx.timed("replay"):
         outs = common.replay_batch(reqs, timeout=3000)
     n = 0
@@ -279,11 +284,11 @@ def run(ctx):
         if not ob_good.get("ok"):
             # the well-typed twin is rejected: the context itself is not accepted by the checker -> the case
             # says nothing about the rule; counted (a generator/context limitation, not a violation)
-            key = (rule, info.get("host"), tuple(info["kinds"]), info.get("pre"))
+            key = (rule, info.get("host"), tuple(info["kinds"]), info.get("pre"), info.get("prefn"))
             twin_rejected[key] = [d.get("msg") for d in ob_good.get("errs", [])][:2]
             continue
         judge(ctx, rule, tags, src, span, ob_bad, info)
-        distinct.add((rule, info.get("host"), tuple(info["kinds"]), info.get("pre")))
+        distinct.add((rule, info.get("host"), tuple(info["kinds"]), info.get("pre"), info.get("prefn")))
     # a rule whose twin is rejected in EVERY context would make the check vacuous for it
     by_rule = {}
     for (rule, host, kinds, _pre) in distinct:
